@@ -149,6 +149,13 @@ class T:
         elif not cond:
             raise Infeasible('assumption false')
 
+    def limit_draws(self, k, fixed):
+        """only the first k random draws are enumerated exhaustively; later draws take the outcomes in `fixed`
+        (cyclically).  Part of the stated bound of the check."""
+        if self.symbolic:
+            C.choice_limit = k
+            C.fixed_choices = list(fixed)
+
     def draws(self):
         """values of the random choice points taken so far on this path"""
         if self.symbolic:
@@ -341,6 +348,8 @@ def run_symbolic(case, cfg, max_paths=2000, consts=False, seed=0, timeout_ms=Non
         C.timeout = timeout_ms
     C.rng = _random.Random(seed * 7919 + 13)
     C.varsh = {}
+    C.choice_limit = None
+    C.fixed_choices = None
     res = dict(paths=0, infeasible=0, obligations=0, discharged=0, unknown=0, failures=[], notes=[], samples=[],
                unsupported=[])
     tvals = {}
